@@ -1,5 +1,6 @@
 import MakoModel.Namespace.LogInv
 import MakoModel.Generated.NsFlow
+import MakoModel.Props.C09
 /-!
 # C07 – namespaces and includes reach other templates with the right context and URI
 
@@ -511,6 +512,66 @@ theorem namespace_unresolvable_raises (S : TSet) (fuel : Nat) (tu : Str) (cid : 
 example : ∃ (S : TSet) (raw : Str) (rel : Option Str),
     ∀ u, adjustUri raw rel = some u → ∀ t, setLookup S u ≠ .found t :=
   ⟨⟨[], [], [], [], false, false⟩, [], some "/a/b.html".toList, fun u _ t h => by simp [setLookup, alookup, dirLookup] at h⟩
+
+/-! ## resolution stays inside the lookup directories -/
+
+/-- `escaping_uri_raises_lookup_exception`: a URI that `Template.__init__`'s check rejects (after normalisation it starts
+with `..`: `dir/../../x` from any depth, `/d/../../x`) and that is not a `put_string` key is never served – whatever files
+exist above the root or in sibling directories – so `_lookup_template` raises `TemplateLookupException`. -/
+theorem escaping_uri_raises_lookup_exception (S : TSet) (kind : EvKind) (raw : Str) (rel : Option Str) (s : St) (u : Str)
+    (hadj : adjustUri raw rel = some u) (hcoll : alookup u S.coll = none) (hesc : templateCheck u = false) :
+    ∃ s', lookupTemplate S kind raw rel s = (.err .lookup s' : Res (Str × Template)) ∧ s'.out = s.out := by
+  refine unresolvable_raises_lookup_exception S kind raw rel s fun v hv t hf => ?_
+  rw [hadj] at hv; cases hv
+  have hd : ∀ ds, dirLookup S.files u ds ≠ .found t := by
+    intro ds
+    induction ds with
+    | nil => simp [dirLookup]
+    | cons d ds ih =>
+      simp only [dirLookup, hesc]
+      cases alookup (uriToSrc d u) S.files with
+      | some t' => simp
+      | none => exact ih
+  simp only [setLookup, hcoll] at hf
+  exact hd _ hf
+
+/-- `served_file_is_below_root`: a template served from the directories (not a `put_string` entry) is a file the URI
+denotes under one of them, the URI passed the check, and (C09 `lookup_contained_normalised`) that file is the directory
+itself or a path below it, component-wise. -/
+theorem served_file_is_below_root (S : TSet) (u : Str) (t : Template) (hcoll : alookup u S.coll = none)
+    (hf : setLookup S u = .found t) (hdirs : ∀ d ∈ S.dirs, normpath d = d) :
+    ∃ d ∈ S.dirs, alookup (uriToSrc d u) S.files = some t ∧ templateCheck u = true ∧ Below d (uriToSrc d u) := by
+  simp only [setLookup, hcoll] at hf
+  have h : ∀ ds : List Str, (∀ d ∈ ds, normpath d = d) → dirLookup S.files u ds = .found t →
+      ∃ d ∈ ds, alookup (uriToSrc d u) S.files = some t ∧ templateCheck u = true ∧ Below d (uriToSrc d u) := by
+    intro ds
+    induction ds with
+    | nil => intro _ h; simp [dirLookup] at h
+    | cons d ds ih =>
+      intro hn h
+      simp only [dirLookup] at h
+      cases ha : alookup (uriToSrc d u) S.files with
+      | some t' =>
+        rw [ha] at h
+        cases hc : templateCheck u with
+        | false => simp [hc] at h
+        | true =>
+          simp only [hc, if_true, Found.found.injEq] at h
+          subst h
+          exact ⟨d, List.mem_cons_self, ha, rfl,
+            MakoModel.C09.lookup_contained_normalised d u (hn d List.mem_cons_self) hc⟩
+      | none =>
+        rw [ha] at h
+        obtain ⟨d', hd', r⟩ := ih (fun x hx => hn x (List.mem_cons_of_mem _ hx)) h
+        exact ⟨d', List.mem_cons_of_mem _ hd', r⟩
+  exact h S.dirs hdirs hf
+
+/-- a file planted above the root, named by `../../../outside.html` written in `/l1/l2/a.html`: rejected -/
+example : ∃ (S : TSet) (u : Str), adjustUri "../../../outside.html".toList (some "/l1/l2/a.html".toList) = some u ∧
+    alookup u S.coll = none ∧ templateCheck u = false ∧ (∃ d ∈ S.dirs, (alookup (uriToSrc d u) S.files).isSome) :=
+  ⟨⟨[], ["/srv/r0".toList], [("/srv/outside.html".toList, ⟨[], none, [], [], []⟩)], [], false, false⟩,
+   "/l1/l2/../../../outside.html".toList, by decide +kernel, rfl, by decide +kernel,
+   ⟨"/srv/r0".toList, by simp, by decide +kernel⟩⟩
 
 /-! ## which URIs are resolvable: normalisation -/
 
